@@ -375,6 +375,11 @@ class OrderedMultiDict(dict, MutableMappingSequence):
 
         kvlist = _insert_arg_helper(args)
 
+        if index < 0:
+            # list.insert() semantics for a negative index, fixed once so
+            # that several pairs stay together.
+            index = max(0, len(self) + index)
+
         for (key, value) in kvlist:
             self.__items.insert(index, (key, value))
             index += 1
